@@ -142,12 +142,23 @@ class ExprMixin(object):
         try:
             return fn(s)
         except EngineError:
-            chk = z3.Solver()
-            chk.set('timeout', 5000)
-            for a in self.assumes:
-                chk.add(a)
-            chk.add(entry_guard)
-            if chk.check() != z3.unsat:
+            # is the branch infeasible?  decided in a forked child under a generous wall-clock budget (so that a loaded
+            # machine does not turn an excluded branch into an "undecided" function), then by the CLI back ends
+            from . import solve as _solve
+            assumes = list(self.assumes)
+
+            def infeasible():
+                chk = z3.Solver()
+                chk.set('timeout', 60000)
+                for a in assumes:
+                    chk.add(a)
+                chk.add(entry_guard)
+                return str(chk.check())
+            verdict = _solve.run_forked(infeasible, 90, 'unknown')
+            if verdict not in ('unsat', 'sat'):
+                r2 = _solve.check_cli_only(assumes, entry_guard, z3.BoolVal(False), 'branch-feasibility')
+                verdict = r2.status
+            if verdict != 'unsat':
                 raise
             if self.frames:
                 del self.frame().exits[n_exits:]
